@@ -21,7 +21,8 @@
 From Coq Require Import String List NArith PArith Bool Permutation.
 Import ListNotations.
 Require Import Verif.Db.Depth Verif.Db.DepthProps Verif.Db.Script Verif.Db.SqlInterp Verif.Gen.DbTables
-  Verif.Db.Tables Verif.Db.ScriptProps Verif.Db.CatalogProps Verif.Db.CreateProps Verif.Db.DeltaProps.
+  Verif.Db.Tables Verif.Db.ScriptProps Verif.Db.CatalogProps Verif.Db.CreateProps Verif.Db.DeltaProps
+  Verif.Db.Text Verif.Db.TextProps Verif.Db.TextSource.
 
 (* ---- obligations against the current source (regenerated table) ---- *)
 Theorem C16_source_shape :
@@ -31,7 +32,7 @@ Proof. exact source_shape. Qed.
 Print Assumptions C16_source_shape.
 
 Theorem C16_type_table : forall p sz, pg_type p sz =
-  match p with PString => TVarchar sz | PInt => TInteger | PDate => TDate | POther => TVarchar 50 end.
+  match p with PString => TVarchar sz | PInt => TInteger | PDate => TDate | POther | PRef1 => TVarchar 50 end.
 Proof. exact pg_type_spec. Qed.
 Print Assumptions C16_type_table.
 
@@ -213,3 +214,139 @@ Print Assumptions C16_delta_sound_refuted_target_retyped.
 Theorem C16_delta_sound_refuted_drop_referenced : run_delta cfg_fixed dr_old dr_new = XErr.
 Proof. exact delta_sound_refuted_drop_referenced. Qed.
 Print Assumptions C16_delta_sound_refuted_drop_referenced.
+
+(* ======================================================================================================
+   Round 3: column kinds, the text assembled from writeCreateSQLForAColumn's result, several applications.
+
+   The model's `col` now carries PRef1 for a column whose type is a type reference that is not <table>.<column>
+   (`price <: Money`, an undefined name, a type of another application); sets and sequences of anything are POther
+   (no primitive).  In the source the model transliterates (C16_text_source_shape: ref_guard = GuardForeignKey)
+   such a column takes the primitive branch of the depth fix-point, of writeCreateSQLForAColumn and of
+   writeModifySQLForAColumn, so C16_depth_*, C16_create_complete_ordered and the delta theorems above hold for
+   models with such columns as they stand (no new hypothesis).  What the repository had is refuted below. *)
+
+(* ---- obligations against the current source ---- *)
+Theorem C16_text_source_shape : (ref_guard, create_trim, addcol_post) = (GuardForeignKey, TrimNlComma, PostTrimDropLast).
+Proof. exact text_shape. Qed.
+Print Assumptions C16_text_source_shape.
+
+Local Open Scope string_scope.
+Theorem C16_column_text_pieces : column_text_shape =
+  [
+   "s = fmt.Sprintf(""  %s %s,\n"", attrName, datatype)";
+   """  CONSTRAINT "" + fkName + "" FOREIGN KEY("" + attrName + "") REFERENCES "" + path0 + "" ("" + path1 + ""),""";
+   "s = fmt.Sprintf(""  %s %s,\n"", attrName, ""bigserial"")";
+   "s = fmt.Sprintf(""  %s %s,\n"", attrName, datatype)";
+   "pk := v.getPrimaryKeyString(primaryKeys)";
+   "if !strings.EqualFold(pk, """") { tableName = strings.ToUpper(tableName) + ""_PK"" s = s + ""  CONSTRAINT "" + tableName + "" PRIMARY KEY("" + pk + ""),"" }";
+   "for _, foreignKeyConstraint := range foreignKeyConstraints { s = s + ""\n"" + foreignKeyConstraint }";
+   "return s"].
+Proof. exact column_text_expected. Qed.
+Print Assumptions C16_column_text_pieces.
+
+Theorem C16_mod_apps_shape : mod_apps_shape =
+  [
+   "var outputSlice []ScriptOutput";
+   "for _, appName := range appNames";
+   "appOld := appsOld[appName]";
+   "appNew := appsNew[appName]";
+   "if appOld != nil && appNew != nil";
+   "v.stringBuilder.Reset()";
+   "typeMapOld := appOld.GetTypes()";
+   "typeMapNew := appNew.GetTypes()";
+   "tableDepthMapOld := CreateTableDepthMap(typeMapOld)";
+   "tableDepthMapNew := CreateTableDepthMap(typeMapNew)";
+   "tablesWithActions := findAddedDeletedRetainedTables(typeMapOld, typeMapNew, tableDepthMapOld, tableDepthMapNew)";
+   "outStr := v.processTablesForModifiedApps(tablesWithActions, v.title, appName, dbType)";
+   "outputFile := filepath.Join(outputDir, appName+SQLExtension)";
+   "outputStruct := MakeScriptOutput(outputFile, outStr)";
+   "outputSlice = append(outputSlice, *outputStruct)";
+   "if appNew != nil && appOld == nil";
+   "v.stringBuilder.Reset()";
+   "outStr := v.GenerateDatabaseScriptCreate(appNew.GetTypes(), dbType, appName)";
+   "outputFile := filepath.Join(outputDir, appName+SQLExtension)";
+   "outputStruct := MakeScriptOutput(outputFile, outStr)";
+   "outputSlice = append(outputSlice, *outputStruct)";
+   "return outputSlice"].
+Proof. exact mod_apps_expected. Qed.
+Print Assumptions C16_mod_apps_shape.
+Local Close Scope string_scope.
+
+(* ---- the text: CREATE TABLE body, ADD COLUMN definition, ADD <constraint> ---- *)
+(* FULL: the body the current source writes for ANY columns / key / foreign keys reads back (items separated by single
+   commas, none behind the last) as exactly the abstract statement *)
+Theorem C16_create_body_text_parses : forall t defs pks fks,
+  parse_body t (body_text create_trim defs pks fks) = Some (CreateTable t defs pks fks).
+Proof. exact body_text_parses_src. Qed.
+Print Assumptions C16_create_body_text_parses.
+
+(* FULL: every statement of the abstract DDL has a text (the `str[:len(str)-1]` of the ADD COLUMN path never meets an
+   empty string) and the text reads back as the statement *)
+Theorem C16_stmt_text_roundtrip : forall s,
+  exists l, stmt_text create_trim addcol_post s = Some l /\ parse_stmt s l = Some s.
+Proof. exact stmt_text_roundtrip_src. Qed.
+Print Assumptions C16_stmt_text_roundtrip.
+
+(* FULL: C16_create_complete_ordered with the text in between *)
+Theorem C16_create_text_complete_ordered : forall m d ord fuel,
+  wf m -> wf_cols m -> is_depth m d -> perm_oracle ord -> (length m < fuel)%nat ->
+  exists l cat, create depth_stop table_order column_order fuel ord m = Ok l /\
+    Forall (fun s => exists toks, stmt_text create_trim addcol_post s = Some toks /\ parse_stmt s toks = Some s) l /\
+    exec empty_cat l = XOk cat /\ cat_matches m cat /\ Permutation (cat_names cat) (map tname m).
+Proof. exact (create_text_complete_ordered depth_stop). Qed.
+Print Assumptions C16_create_text_complete_ordered.
+
+(* non-vacuity: a model with a named-type column, a table without key and references, and a reference to the
+   named-type column meets the hypotheses; what it emits *)
+Example C16_named_type_hypotheses_met : wf nt_model /\ wf_cols nt_model /\ is_depth nt_model nt_depth.
+Proof. exact nt_hypotheses. Qed.
+Example C16_named_type_create_runs :
+  (create depth_stop table_order column_order 4 id_ord nt_model =
+   Ok [CreateTable 1%positive [(10%positive, TInteger); (11%positive, TVarchar 50)] [10%positive] [];
+       CreateTable 2%positive [(12%positive, TVarchar 9)] [] [];
+       CreateTable 3%positive [(13%positive, TVarchar 50)] [] [(13%positive, (1%positive, 11%positive))]]) /\
+  (body_text create_trim [(12%positive, TVarchar 9)] [] [] = [KInd; KName 12%positive; KSp; KTy (TVarchar 9)]) /\
+  (body_text TrimComma [(12%positive, TVarchar 9)] [] [] = [KInd; KName 12%positive; KSp; KTy (TVarchar 9); KComma; KNl]).
+Proof. exact nt_create_runs. Qed.
+
+(* REFUTED for the trimming the repository had (TrimSuffix(",") alone): every table with a column, without key column
+   and without reference keeps a comma before the closing parenthesis ... *)
+Theorem C16_create_trailing_comma_refuted : forall t defs d,
+  parse_body t (body_text TrimComma (defs ++ [d]) [] []) = None.
+Proof. exact body_text_trailing_comma_refuted. Qed.
+Print Assumptions C16_create_trailing_comma_refuted.
+
+(* ... PARTIAL: and only those (with a key or a foreign key the old trimming was enough: the golden files) *)
+Theorem C16_create_old_trim_partial : forall t defs pks fks, pks <> [] \/ fks <> [] ->
+  parse_body t (body_text TrimComma defs pks fks) = Some (CreateTable t defs pks fks).
+Proof. exact body_text_parses_with_constraint. Qed.
+Print Assumptions C16_create_old_trim_partial.
+
+(* REFUTED for the reference guard the repository had (every type reference takes the reference branch): a column of
+   a named type is written without a type, and the CREATE TABLE that holds it is rejected *)
+Theorem C16_named_type_column_refuted : forall cat t c vt pre post pks fks,
+  cref c = None -> cprim c = PRef1 ->
+  exec1 cat (CreateTable t (pre ++ [fst (fst (create_col_typeref_guard t c vt))] ++ post) pks fks) = XErr.
+Proof. exact named_type_column_refuted. Qed.
+Print Assumptions C16_named_type_column_refuted.
+
+(* ---- several applications in one run (--app-names a,b,c) ---- *)
+(* FULL: the result is the concatenation of what each application yields on its own: the delta when both modules have
+   it, the creation script when only the new one has it, nothing otherwise; so every per-application theorem above
+   applies to each script of a multi-application run *)
+Theorem C16_apps_independent : forall sk cfg tk ck fuel ord apps outs,
+  Forall2 (fun e o => entry_script sk cfg tk ck fuel ord e = Ok o) apps outs ->
+  process_mod sk cfg tk ck fuel ord apps = Ok (concat outs).
+Proof. exact process_mod_independent. Qed.
+Print Assumptions C16_apps_independent.
+
+Example C16_apps_hypotheses_met :
+  Forall2 (fun e o => entry_script depth_stop delta_cfg table_order column_order 4 id_ord e = Ok o)
+    [(Some nv1, Some nv2); (None, Some nt_model); (Some nv1, None)]
+    [[ScrDelta [CreateTable 2%positive [(12%positive, TInteger); (13%positive, TBigint); (14%positive, TVarchar 30)] [12%positive]
+                  [(13%positive, (1%positive, 10%positive)); (14%positive, (1%positive, 11%positive))]]];
+     [ScrCreate [CreateTable 1%positive [(10%positive, TInteger); (11%positive, TVarchar 50)] [10%positive] [];
+                 CreateTable 2%positive [(12%positive, TVarchar 9)] [] [];
+                 CreateTable 3%positive [(13%positive, TVarchar 50)] [] [(13%positive, (1%positive, 11%positive))]]];
+     []].
+Proof. exact apps_hypotheses_met. Qed.
